@@ -1607,7 +1607,12 @@ update_timeout:
 
     assert(timeout > 0);
 
+    /* Subtract what elapsed since the previous update only: base has to move
+     * along, otherwise the second and later retries subtract the time since
+     * entry again and the poll returns before its timeout.
+     */
     real_timeout -= (loop->time - base);
+    base = loop->time;
     if (real_timeout <= 0)
       break;
 
